@@ -78,8 +78,10 @@ type c08Cfg struct {
 
 type c08Ht struct {
 	Present bool     `json:"present"`
-	Users   [][2]int `json:"users,omitempty"` // (user, password version)
-	Bad     bool     `json:"bad,omitempty"`   // a malformed line after the users
+	Users   [][2]int `json:"users,omitempty"`   // (user, password version): the entries in front of the damaged line (all of them when there is none)
+	Bad     bool     `json:"bad,omitempty"`     // a line the parser rejects, after Users
+	BadKind int      `json:"badkind,omitempty"` // 0 a line without separator, 1 an entry with a bcrypt hash (the parser of that format returns an error), 2 an entry with a {SHA} hash that is not base64
+	After   [][2]int `json:"after,omitempty"`   // entries behind the damaged line (never read)
 }
 
 type c08Op struct {
@@ -95,7 +97,18 @@ type c08In struct {
 	Name  string           `json:"name,omitempty"`
 	Files map[string]c08Ht `json:"files,omitempty"` // initial htpasswd files by id
 	Ops   []c08Op          `json:"ops"`
+	Lite  bool             `json:"lite,omitempty"` // (set by the runner) results and error classes only: nothing is observed between the steps
 }
+
+// c08Fresh: what the same attempt does in a process that ran the history without the attempts on invalid
+// configurations before it ("a process that did not see the earlier failures")
+type c08Fresh struct {
+	Res int    `json:"res"`
+	EC  string `json:"ec,omitempty"`
+	Err string `json:"err,omitempty"`
+}
+
+var c08ECCode = map[string]int{"": 0, "panic": 1, "loader": 2, "auth-user": 3, "auth-parse": 4, "auth-open": 5, "listen": 6, "startup": 7, "other": 8}
 
 // observation after one step
 type c08Obs struct {
@@ -317,7 +330,17 @@ func (ch *c08Child) writeHt(f int, h c08Ht) {
 		fmt.Fprintf(&sb, "u%d:pw%d\n", u[0], u[1])
 	}
 	if h.Bad {
-		sb.WriteString("this line has no separator\n")
+		switch h.BadKind {
+		case 1:
+			sb.WriteString("u7:$2y$05$c4WoMPo3SXsafkva.HHa6uXQZWr7oboPiC2bT/r7q1BB8I2s0BRqC\n")
+		case 2:
+			sb.WriteString("u7:{SHA}this is not base64!\n")
+		default:
+			sb.WriteString("this line has no separator\n")
+		}
+	}
+	for _, u := range h.After {
+		fmt.Fprintf(&sb, "u%d:pw%d\n", u[0], u[1])
 	}
 	before, errB := os.Stat(p)
 	os.WriteFile(p, []byte(sb.String()), 0o644)
@@ -936,7 +959,9 @@ func c08ChildMain(args []string) int {
 		w.Flush()
 	}
 	var o0 c08Obs
-	ch.observe(0, &o0)
+	if !in.Lite {
+		ch.observe(0, &o0)
+	}
 	emit(&o0)
 	for i := range in.Ops {
 		op := &in.Ops[i]
@@ -953,6 +978,13 @@ func c08ChildMain(args []string) int {
 				o.EC = c08MsgClass(o.Err)
 			}
 			o.Ms = time.Since(t0).Milliseconds()
+		}
+		if in.Lite {
+			emit(&o)
+			if o.Res == 3 {
+				break
+			}
+			continue
 		}
 		ch.observe(i+1, &o)
 		if op.Roll && o.Res == 0 {
@@ -1042,7 +1074,11 @@ func c08HtTerm(h c08Ht) string {
 	for _, u := range h.Users {
 		us = append(us, cPair(cN(uint64(u[0])), cN(uint64(u[1]))))
 	}
-	return cApp("Build_htfile", cBool(h.Present), cList(us), cBool(h.Bad))
+	var after []string
+	for _, u := range h.After {
+		after = append(after, cPair(cN(uint64(u[0])), cN(uint64(u[1]))))
+	}
+	return cApp("Build_htfile", cBool(h.Present), cList(us), cBool(h.Bad), cList(after))
 }
 
 func c08CfgTerm(c *c08Cfg, mode string) string {
@@ -1052,6 +1088,7 @@ func c08CfgTerm(c *c08Cfg, mode string) string {
 		pf = "PSyntax"
 	}
 	var effs, addrs []string
+	firstLog := -1
 	for _, e := range c.Effs {
 		switch e.K {
 		case "bad":
@@ -1062,7 +1099,17 @@ func c08CfgTerm(c *c08Cfg, mode string) string {
 			if c08Inert(mode, &e) {
 				continue // an OnFirstStartup callback: not run by this kind of attempt
 			}
-			effs = append(effs, cApp("ELog", cN(uint64(e.F)), cN(uint64(e.Size)), cBool(e.OK)))
+			t := cApp("ELog", cN(uint64(e.F)), cN(uint64(e.Size)), cBool(e.OK))
+			if !e.OK && e.Via == "plugin-first" && firstLog >= 0 {
+				// casket.Start runs the OnFirstStartup callbacks before ALL the OnStartup callbacks: the failing
+				// one comes before the startup callback of any `log` line (no roller is registered)
+				effs = append(effs[:firstLog], append([]string{t}, effs[firstLog:]...)...)
+				continue
+			}
+			if firstLog < 0 {
+				firstLog = len(effs)
+			}
+			effs = append(effs, t)
 		case "auth":
 			effs = append(effs, cApp("EAuth", cN(uint64(e.F)), cN(uint64(e.U))))
 		case "proxy":
@@ -1238,7 +1285,7 @@ func c08InstsLive(o *c08Obs) bool {
 }
 
 // c08Label names the first clause of the property that the observations violate ("pass" if none).
-func c08Label(in *c08In, full, ref []c08Obs) string {
+func c08Label(in *c08In, full, ref []c08Obs, fresh []*c08Fresh) string {
 	env := c08EnvOf(in)
 	// how each htpasswd file was last met by a FAILED attempt (the state the cache may remember)
 	touch := map[int]string{}
@@ -1405,6 +1452,13 @@ func c08Label(in *c08In, full, ref []c08Obs) string {
 			}
 			return "invalid-accepted:" + mode + ":" + stage
 		}
+		if i < len(fresh) && fresh[i] != nil {
+			// the same attempt in a process that did not see the earlier failures
+			fo := c08Obs{Res: fresh[i].Res, EC: fresh[i].EC, Err: fresh[i].Err}
+			if now, fr := c08ErrClass(o), c08ErrClass(&fo); now != fr {
+				return "retry:" + mode + ":" + intended + ":" + now + "-instead-of-" + fr
+			}
+		}
 		if o.Res != 0 {
 			touched(op.Cfg)
 		}
@@ -1453,6 +1507,31 @@ func c08RunOne(in *c08In) Result {
 	if erased > 0 || crashF != "" {
 		ref, crashR = c08RunChild(&refIn)
 	}
+	// the fresh-process outcome of every attempt on an invalid configuration that comes after another one: the
+	// history up to it without the invalid attempts before it, then the attempt itself
+	fresh := make([]*c08Fresh, len(in.Ops))
+	seen := 0
+	for i := range refIn.Ops {
+		if !refIn.Ops[i].Skip {
+			continue
+		}
+		seen++
+		if seen < 2 || i+1 >= len(full) {
+			continue
+		}
+		fin := c08In{Name: in.Name, Files: in.Files, Ops: make([]c08Op, i+1), Lite: true}
+		copy(fin.Ops, refIn.Ops[:i+1])
+		fin.Ops[i].Skip = false
+		fo, crash := c08RunChild(&fin)
+		switch {
+		case len(fo) == i+2:
+			fresh[i] = &c08Fresh{Res: fo[i+1].Res, EC: fo[i+1].EC, Err: fo[i+1].Err}
+		case crash != "":
+			fresh[i] = &c08Fresh{Res: 2, Err: crash}
+		default:
+			fresh[i] = &c08Fresh{Res: 3, Err: "the fresh process did not get as far as this attempt"}
+		}
+	}
 	// a dead child: the step it died in counts as a crash
 	if crashF != "" && len(full) > 0 && len(full) <= len(in.Ops) && full[len(full)-1].Res != 3 {
 		dead := full[len(full)-1]
@@ -1460,10 +1539,10 @@ func c08RunOne(in *c08In) Result {
 		full = append(full, dead)
 	}
 	if len(full) == 0 || len(ref) == 0 {
-		return Result{Term: "(CHist [] [] (Build_obs 9%N false 0%N [] [] 0%N [] [] 0%N [] [] []) [] [])", Sig: "harness:no-observation",
+		return Result{Term: "(CHist [] [] (Build_obs 9%N false 0%N [] [] 0%N [] [] 0%N [] [] []) [] [] [])", Sig: "harness:no-observation",
 			Obs: map[string]interface{}{"full": crashF, "ref": crashR}, Direct: "the history could not be run: " + crashF + crashR, Class: "harness-error"}
 	}
-	var envT, opsT, fullT, refT []string
+	var envT, opsT, fullT, refT, freshT []string
 	for k, v := range in.Files {
 		n, _ := strconv.Atoi(k)
 		envT = append(envT, cPair(cN(uint64(n)), c08HtTerm(v)))
@@ -1478,7 +1557,18 @@ func c08RunOne(in *c08In) Result {
 	for i := 1; i < len(ref); i++ {
 		refT = append(refT, c08ObsTerm(&ref[i]))
 	}
-	label := c08Label(in, full, ref)
+	for i := range in.Ops {
+		if fresh[i] == nil || i+1 >= len(full) {
+			freshT = append(freshT, "None")
+			continue
+		}
+		ec := full[i+1].EC
+		if full[i+1].Res == 1 && ec == "" {
+			ec = c08MsgClass(full[i+1].Err)
+		}
+		freshT = append(freshT, cApp("Some", cPair(cN(uint64(c08ECCode[ec])), cPair(cN(uint64(fresh[i].Res)), cN(uint64(c08ECCode[fresh[i].EC]))))))
+	}
+	label := c08Label(in, full, ref, fresh)
 	direct := ""
 	for i := range full {
 		if full[i].Proc != "" {
@@ -1507,8 +1597,11 @@ func c08RunOne(in *c08In) Result {
 	if erased > 0 {
 		obs["ref"] = ref[1:]
 	}
+	if seen >= 2 {
+		obs["fresh"] = fresh
+	}
 	return Result{
-		Term: cApp("CHist", cList(envT), cList(opsT), c08ObsTerm(&full[0]), cList(fullT), cList(refT)),
+		Term: cApp("CHist", cList(envT), cList(opsT), c08ObsTerm(&full[0]), cList(fullT), cList(refT), cList(freshT)),
 		Obs:  obs, Sig: label, Direct: direct, Key: string(key), Nontrivial: fails > 0 && len(full) == len(in.Ops)+1, Class: class,
 	}
 }
@@ -1634,15 +1727,11 @@ func c08Template(mode, fault string, ft c08Feat, pre bool, change bool, finalMod
 	in := &c08In{Name: fmt.Sprintf("tmpl/%s/%s/%s", mode, fault, tag), Files: map[string]c08Ht{"1": *c08Users([2]int{1, 1})}}
 	id := 1
 	htf := 1
-	switch fault {
-	case "ht-missing":
+	if strings.HasPrefix(fault, "ht-") {
 		htf = 2
-	case "ht-bad":
-		htf = 2
-		in.Files["2"] = c08Ht{Present: true, Users: [][2]int{{1, 1}}, Bad: true}
-	case "ht-nouser":
-		htf = 2
-		in.Files["2"] = *c08Users([2]int{2, 1})
+		if h := c08FaultFile(fault); h != nil {
+			in.Files["2"] = *h
+		}
 	}
 	if pre || mode == "reload" || mode == "sigusr1" || finalMode != "load" {
 		pf := ft
@@ -1666,6 +1755,76 @@ func c08Template(mode, fault string, ft c08Feat, pre bool, change bool, finalMod
 	}
 	fin := c08MkCfg(id, ff, "", htf)
 	in.Ops = append(in.Ops, c08Op{Kind: finalMode, Cfg: fin, Roll: ff.Log > 0})
+	return in
+}
+
+// c08FaultFile: the htpasswd file (id 2) of an `ht-` fault; the configured user is u1.  nil = the file is missing
+func c08FaultFile(fault string) *c08Ht {
+	switch fault {
+	case "ht-bad": // the damaged line stands BEHIND the configured user
+		return &c08Ht{Present: true, Users: [][2]int{{1, 1}}, Bad: true}
+	case "ht-bad-late": // ... in FRONT of the configured user, after another good line
+		return &c08Ht{Present: true, Users: [][2]int{{2, 1}}, Bad: true, After: [][2]int{{1, 1}}}
+	case "ht-bad-hash": // a hash the parser of its format returns an error for, between two good lines
+		return &c08Ht{Present: true, Users: [][2]int{{1, 2}}, Bad: true, BadKind: 1, After: [][2]int{{2, 1}}}
+	case "ht-bad-sha":
+		return &c08Ht{Present: true, Users: [][2]int{{2, 1}, {1, 1}}, Bad: true, BadKind: 2}
+	case "ht-nouser":
+		return c08Users([2]int{2, 1})
+	}
+	return nil
+}
+
+// c08HtFaults: every way an htpasswd file makes a configuration invalid
+var c08HtFaults = []string{"ht-missing", "ht-bad", "ht-bad-late", "ht-bad-hash", "ht-bad-sha", "ht-nouser"}
+
+func c08CopyCfg(c *c08Cfg) *c08Cfg {
+	d := *c
+	d.Effs = append([]c08Eff(nil), c.Effs...)
+	d.Addrs = append([]int(nil), c.Addrs...)
+	return &d
+}
+
+// c08Retry: [a running site] ; the SAME invalid configuration attempted two or three times (modes[0], modes[1], ...)
+// with the environment untouched ; [the environment is repaired] ; a valid configuration using the same files.
+// The outcome of every attempt may depend on the configuration and the environment only: each retry is held
+// against the same attempt made by a process that did not see the earlier ones.
+func c08Retry(modes []string, fault string, ft c08Feat, pre bool, finalMode string, tag string) *c08In {
+	in := &c08In{Name: fmt.Sprintf("tmpl/retry-%s/%s/%s", strings.Join(modes, "-"), fault, tag), Files: map[string]c08Ht{"1": *c08Users([2]int{1, 1})}}
+	id, htf := 1, 1
+	if strings.HasPrefix(fault, "ht-") {
+		htf = 2
+		if h := c08FaultFile(fault); h != nil {
+			in.Files["2"] = *h
+		}
+	}
+	for _, m := range modes {
+		if m == "reload" || m == "sigusr1" {
+			pre = true
+		}
+	}
+	if pre || finalMode != "load" {
+		pf := ft
+		pf.Log = 0
+		in.Ops = append(in.Ops, c08Op{Kind: "load", Cfg: c08MkCfg(id, pf, "", 1)})
+		id++
+	}
+	bad := c08MkCfg(id, ft, fault, htf)
+	id++
+	for _, m := range modes {
+		in.Ops = append(in.Ops, c08Op{Kind: m, Cfg: c08CopyCfg(bad)})
+	}
+	if htf == 2 {
+		in.Ops = append(in.Ops, c08Op{Kind: "write", F: 2, Ht: c08Users([2]int{1, 2}, [2]int{2, 1})})
+	}
+	ff := ft
+	if htf == 2 {
+		ff.Auth = true
+	}
+	if ff.Log > 0 {
+		ff.Log = 51 - ff.Log
+	}
+	in.Ops = append(in.Ops, c08Op{Kind: finalMode, Cfg: c08MkCfg(id, ff, "", htf), Roll: ff.Log > 0})
 	return in
 }
 
@@ -1695,13 +1854,20 @@ func c08RandCfg(r *Rand, id int, valid bool) *c08Cfg {
 }
 
 func c08RandHt(r *Rand) *c08Ht {
-	switch r.Intn(6) {
+	switch r.Intn(9) {
 	case 0:
 		return &c08Ht{}
 	case 1:
 		return &c08Ht{Present: true, Users: [][2]int{{1, 1 + r.Intn(2)}}, Bad: true}
 	case 2:
 		return c08Users([2]int{2, 1})
+	case 3: // a damaged line between good ones: the configured user in front of it or behind it
+		if r.Bool() {
+			return &c08Ht{Present: true, Users: [][2]int{{1, 1 + r.Intn(2)}}, Bad: true, BadKind: r.Intn(3), After: [][2]int{{2, 1}}}
+		}
+		return &c08Ht{Present: true, Users: [][2]int{{2, 1}}, Bad: true, BadKind: r.Intn(3), After: [][2]int{{1, 1 + r.Intn(2)}}}
+	case 4: // the first line is damaged
+		return &c08Ht{Present: true, Bad: true, BadKind: r.Intn(3), After: [][2]int{{1, 1}, {2, 1}}}
 	}
 	return c08Users([2]int{1, 1 + r.Intn(2)}, [2]int{2, 1})
 }
@@ -1753,6 +1919,19 @@ func c08Random(r *Rand, maxLen int, k int) *c08In {
 		wantValid := last || r.Chance(35)
 		c := c08RandCfg(r, id, wantValid)
 		id++
+		if !last && r.Chance(22) {
+			// an earlier configuration once more (whatever has happened to the files since), in whatever mode
+			var prev []*c08Cfg
+			for k := range in.Ops {
+				if in.Ops[k].Cfg != nil {
+					prev = append(prev, in.Ops[k].Cfg)
+				}
+			}
+			if len(prev) > 0 {
+				c = c08CopyCfg(prev[r.Intn(len(prev))])
+				wantValid = false
+			}
+		}
 		if wantValid && !c08Valid("load", c, env) {
 			// the environment does not support the auth line: repair it first
 			for _, e := range c.Effs {
@@ -1861,6 +2040,53 @@ func c08Gen(r *Rand, tier string) []interface{} {
 			}
 		}
 	}
+	// the SAME invalid configuration attempted two and three times with the environment untouched
+	retryFaults := append([]string{}, c08HtFaults...)
+	for _, f := range c08Faults {
+		if !strings.HasPrefix(f, "ht-") {
+			retryFaults = append(retryFaults, f)
+		}
+	}
+	for mi, m := range c08Modes {
+		for fi, f := range retryFaults {
+			ht := strings.HasPrefix(f, "ht-")
+			if !ht && tier != "thorough" && !r.Chance(25) {
+				continue
+			}
+			second := c08Modes[(mi+fi)%len(c08Modes)]
+			third := c08Modes[(mi+2*fi+1)%len(c08Modes)]
+			modes := []string{m, second}
+			if (mi+fi)%2 == 0 {
+				modes = append(modes, third)
+			}
+			skip := false
+			for _, x := range modes {
+				if c08DirectivesOnly(x) && (f == "startup" || f == "busy" || f == "busy-multi" || c08LoaderFault(f)) {
+					skip = true // valid for (or not applicable to) a validation
+				}
+			}
+			if skip {
+				modes = []string{"load", "load"}
+				if mi%2 == 1 {
+					modes = []string{"load", "reload", "sigusr1"}
+				}
+				if mi >= 2 && tier != "thorough" {
+					continue
+				}
+			}
+			ft := bare
+			if ht {
+				ft = c08Feat{Auth: true, On: (mi + fi) % 2}
+			} else if fi%2 == 0 {
+				ft = c08Feat{On: 1, Auth: true}
+			}
+			fin := "load"
+			if last := modes[len(modes)-1]; last == "reload" || last == "sigusr1" {
+				fin = last
+			}
+			ins = append(ins, c08Retry(modes, f, ft, r.Bool(), fin, fmt.Sprintf("m%d", mi)))
+		}
+	}
 	nrand, maxLen := 60, 6
 	if tier == "thorough" {
 		nrand, maxLen = 2200, 10
@@ -1879,7 +2105,7 @@ func c08Gen(r *Rand, tier string) []interface{} {
 func init() {
 	register(&Property{
 		ID: "C08", Imports: "V.Lib V.C08_Model", Judge: "judge", Shard: 40,
-		Rule:   "histories of load (casket.Start) / validate / reload (Instance.Restart) / SIGUSR1 attempts and htpasswd-file rewrites, run in-process in a fresh child of the harness with a watchdog per attempt: templates {load, validate, reload, SIGUSR1, API-driven execute} x {syntax error, unknown directive, missing import, Casketfile removed / unreadable / loader error at that moment (SIGUSR1: at signal time, with a running configuration that has `on` hooks), bad argument early/mid/late/after proxy in directive order, bad `on` line after good ones, htpasswd missing/malformed/without the user, failing startup callback, port in use alone/after another listener, a plugin whose setup panics during a reload} x feature sets (on, log roller, basicauth htpasswd, proxy with a health check of a loopback backend, two listeners), each followed by a valid load/reload using the same files; every kind of failing startup callback (`log` / `errors` output file in a missing directory, OnStartup / OnFirstStartup callback of a plugin directive) in load / reload / SIGUSR1 followed by >= 2 further steps (valid reload, valid reload the other way, reload refused at Listen keeping the running address, valid reload) with casket.Instances() observed after every step (length, configuration of every entry, which entries serve); plus random histories (<= 6 steps quick, <= 10 thorough); every history is also run with the invalid attempts erased; after every step the events are emitted (which hooks run) and the backend is watched (whose workers probe); non-trivial = at least one attempt failed and the history ran to its end",
+		Rule:   "histories of load (casket.Start) / validate / reload (Instance.Restart) / SIGUSR1 attempts and htpasswd-file rewrites, run in-process in a fresh child of the harness with a watchdog per attempt: templates {load, validate, reload, SIGUSR1, API-driven execute} x {syntax error, unknown directive, missing import, Casketfile removed / unreadable / loader error at that moment (SIGUSR1: at signal time, with a running configuration that has `on` hooks), bad argument early/mid/late/after proxy in directive order, bad `on` line after good ones, htpasswd missing/malformed/without the user, failing startup callback, port in use alone/after another listener, a plugin whose setup panics during a reload} x feature sets (on, log roller, basicauth htpasswd, proxy with a health check of a loopback backend, two listeners), each followed by a valid load/reload using the same files; the SAME invalid configuration attempted two and three times with the environment untouched (every pair / triple of modes; htpasswd files that are missing, lack the user, or have a line the parser rejects - no separator, a bcrypt hash, a {SHA} hash that is not base64 - behind / in front of the configured user and between good lines; a sample of the other faults, all of them in the thorough tier), each attempt on an invalid configuration that comes after another one held against the same attempt made by a process that did not see the earlier failures (result and class of the error message); every kind of failing startup callback (`log` / `errors` output file in a missing directory, OnStartup / OnFirstStartup callback of a plugin directive) in load / reload / SIGUSR1 followed by >= 2 further steps (valid reload, valid reload the other way, reload refused at Listen keeping the running address, valid reload) with casket.Instances() observed after every step (length, configuration of every entry, which entries serve); plus random histories (<= 6 steps quick, <= 10 thorough); every history is also run with the invalid attempts erased; after every step the events are emitted (which hooks run) and the backend is watched (whose workers probe); non-trivial = at least one attempt failed and the history ran to its end",
 		Gen:    c08Gen,
 		Decode: func(raw json.RawMessage) (interface{}, error) { in := &c08In{}; return in, json.Unmarshal(raw, in) },
 		Run:    c08Run,
